@@ -89,3 +89,8 @@ c19_rop(eos, S, E) :- stream_property(S, end_of_stream(E)).
 % a get_char whose argument is already bound
 c19_rop(gc_is(N), S, B) :- char_code(C, N), ( get_char(S, C) -> B = true ; B = false ).
 c19_rop(pc_is(N), S, B) :- char_code(C, N), ( peek_char(S, C) -> B = true ; B = false ).
+
+% read script on the machine's user_input (an in-memory stream when the machine was built from a string)
+c19_read_user(Ops, Rs) :-
+    current_input(S),
+    c19_rrun(Ops, S, [], Rs).
